@@ -150,13 +150,14 @@ Fixpoint join_cells (fuel : nat) (sep : option string) (v : list cell) : option 
 Definition join_str_vec (sep : option string) (v : list cell) : M string :=
   match join_cells 40 sep v with Some t => ret t | None => unsup end.
 
-(* stable insertion sort by the total order *)
+(* stable insertion sort by the total order: fold_right inserts the LAST element first, so an
+   element goes in front of the elements it compares equal to *)
 Fixpoint sort_insert (x : cell) (l : list cell) : list cell :=
   match l with
   | [] => [x]
   | y :: r => match cell_cmp x y with
-              | Lt => x :: l
-              | _ => y :: sort_insert x r
+              | Gt => y :: sort_insert x r
+              | _ => x :: l
               end
   end.
 Definition sort_cells (l : list cell) : list cell := fold_right sort_insert [] l.
